@@ -98,6 +98,75 @@ class FnInfo:
                     and isinstance(n.func.value, ast.Name) and n.args:
                 self.appends.setdefault(n.func.value.id, []).append(n.args[0])
 
+    # --- reaching definition (kills the flow-insensitive union when it is definite) -------
+    def _parents(self):
+        if not hasattr(self, '_pm'):
+            self._pm = {}
+            for n in ast.walk(self.fn):
+                for fld in ('body', 'orelse', 'finalbody'):
+                    b = getattr(n, fld, None)
+                    if isinstance(b, list):
+                        for i, st in enumerate(b):
+                            if isinstance(st, ast.stmt):
+                                self._pm[id(st)] = (n, b, i)
+                if isinstance(n, ast.Try):
+                    for h in n.handlers:
+                        for i, st in enumerate(h.body):
+                            self._pm[id(st)] = (n, h.body, i)
+        return self._pm
+
+    def reaching_def(self, name, stmt):
+        """Value expression of the assignment to `name` that definitely reaches `stmt`, or None."""
+        pm = self._parents()
+        cur = stmt
+        while cur is not None and id(cur) in pm:
+            parent, block, i = pm[id(cur)]
+            for prev in reversed(block[:i]):
+                if isinstance(prev, ast.Assign) and len(prev.targets) == 1 and isinstance(prev.targets[0], ast.Name) \
+                        and prev.targets[0].id == name:
+                    self._last_def_stmt = prev
+                    return prev.value
+                if any(isinstance(x, ast.Name) and isinstance(x.ctx, ast.Store) and x.id == name for x in ast.walk(prev)):
+                    return None         # conditional / compound redefinition: not definite
+            if isinstance(parent, (ast.For, ast.While)):
+                return None
+            cur = parent if isinstance(parent, ast.stmt) else None
+        return None
+
+    def prov_at(self, e, stmt):
+        """Provenance of reference e as used in statement stmt (flow-sensitive when definite)."""
+        if isinstance(e, ast.Name) and e.id != self.self_name:
+            rd = self.reaching_def(e.id, stmt)
+            if rd is not None:
+                return self.prov(rd, {e.id})
+        return self.prov(e)
+
+    def elem_prov_at(self, it, stmt):
+        if isinstance(it, ast.Call) and isinstance(it.func, ast.Name) and it.func.id in ('tuple', 'list') and it.args:
+            return self.elem_prov_at(it.args[0], stmt)
+        if isinstance(it, ast.Name):
+            rd = self.reaching_def(it.id, stmt)
+            if rd is not None:
+                dstmt = self._last_def_stmt
+                if isinstance(rd, ast.Name) or (isinstance(rd, ast.Call) and isinstance(rd.func, ast.Name) and rd.func.id in ('tuple', 'list')):
+                    out = self.elem_prov_at(rd, dstmt)
+                else:
+                    out = self.elem_prov(rd, {it.id})
+                # element stores / appends into this container between its definition and the use
+                for st2 in ast.walk(self.fn):
+                    if not isinstance(st2, ast.stmt) or not (dstmt.lineno < st2.lineno <= stmt.lineno):
+                        continue
+                    if isinstance(st2, ast.Assign):
+                        for t in st2.targets:
+                            if isinstance(t, ast.Subscript) and isinstance(t.value, ast.Name) and t.value.id == it.id:
+                                out |= self.prov_at(st2.value, st2)
+                    if isinstance(st2, ast.Expr) and isinstance(st2.value, ast.Call) and isinstance(st2.value.func, ast.Attribute) \
+                            and st2.value.func.attr == 'append' and isinstance(st2.value.func.value, ast.Name) \
+                            and st2.value.func.value.id == it.id and st2.value.args:
+                        out |= self.prov_at(st2.value.args[0], st2)
+                return out
+        return self.elem_prov(it)
+
     # --- provenance of a reference expression ------------------------------------------
     def prov(self, e, seen=None):
         seen = seen or set()
@@ -296,7 +365,7 @@ def frame_obligations(pid='C01'):
         for X, fld, val, stmt in stores_in(fn):
             if fld not in VIEW_FIELDS | CACHE_FIELDS and fld != '*':
                 continue
-            p = info.prov(X)
+            p = info.prov_at(X, stmt)
             site = f'{pid}:{q}:frame@{fld}'
             where = f'{fname}:{stmt.lineno} {ast.unparse(stmt)[:80]}'
             if 'PARAM' in p:
@@ -337,7 +406,7 @@ def frame_obligations(pid='C01'):
             for X, fld, val, stmt in stores_in(fn):
                 if fld != '_underlying' or val is None:
                     continue
-                ep = info.elem_prov(val)
+                ep = info.elem_prov_at(val, stmt)
                 site = f'{pid}:{q}:fresh-column'
                 where = f'{fname}:{stmt.lineno} {ast.unparse(stmt)[:80]}'
                 if 'PARAM' in ep:
